@@ -196,8 +196,8 @@ fn main() {
     let (mut prefix_runs, mut emitted) = (0usize, 0usize);
     for h in 0..histories {
         let runner = ["direct", "sync", "async"][h % 3];
-        let ending = ["shutdown", "feed_end", "fatal"][(h / 3) % 3];
-        let with_orders = (h / 9) % 2 == 0;
+        let ending = ["shutdown", "feed_end", "fatal", "fatal_algo"][(h / 3) % 4];
+        let with_orders = (h / 12) % 2 == 0;
         let mut kit = new_kit(if rng.random_bool(0.5) { TradingState::Enabled } else { TradingState::Disabled });
         let mut g = Gen { next: h * 1000, live: vec![] };
         // the scripted history
@@ -212,6 +212,19 @@ fn main() {
                 for r in b2.iter_mut() { let i = r["inst"].as_i64().unwrap(); r["ex"] = json!(world2::EX_OF[i as usize]); }
                 items.push((engine_gen::ev("SendOpens", 0, 0, "", "", "-", 0, false, "-", b2, engine_gen::no_filter()), env));
                 // events after the fatal one must never be processed
+                items.push((g.event(&mut rng), g.env(&mut rng, false, false)));
+            }
+            "fatal_algo" => {
+                // the run ends by a fatal error raised while the STRATEGY's order is sent during a
+                // state-changing market event: the terminal record carries an event the replica must apply
+                items.push((engine_gen::ev("TradingState", 0, 0, "", "", "-", 0, false, "Enabled", vec![], engine_gen::no_filter()), g.env(&mut rng, false, false)));
+                let mut o = g.opens(&mut rng, 1);
+                o[0]["ex"] = json!(2); // a non-existent exchange index: unrecoverable in every runner
+                let inst = rng.random_range(0..world2::N_INST as i64);
+                let mut env = g.env(&mut rng, false, false);
+                env["algoO"] = json!(o);
+                env["refuse"] = json!([]);
+                items.push((engine_gen::ev("Market", world2::EX_OF[inst as usize] as i64, inst, "", "", "-", 0, false, "-", vec![], engine_gen::no_filter()), env));
                 items.push((g.event(&mut rng), g.env(&mut rng, false, false)));
             }
             _ => {}
